@@ -51,6 +51,8 @@ def jobs_for(prop, tier):
         if quick:
             return storage_jobs([(D, 0), (R, 0)])
         return storage_jobs([(c, 0) for c in ALL_CFGS], threads=2)
+    if prop == 'C15':
+        return [Job('macros', D, 0, build.build_macros_unit, threads=4)]
     if prop == 'C19':
         if quick:
             return storage_jobs([(c, 1) for c in ALL_CFGS], threads=2)
